@@ -39,6 +39,10 @@ Proof.
   apply IH; lia.
 Qed.
 
+Lemma match_ge2 {A} (n : nat) (a b e : A) :
+  (2 <= n)%nat -> match n with O => a | S O => b | S (S _) => e end = e.
+Proof. destruct n as [|[|n]]; intros; try lia; reflexivity. Qed.
+
 Section Main.
 Variable D : rdesc.
 Variables (x ancp : list bool) (c : nat).
@@ -323,7 +327,7 @@ Proof.
     + eexists. split; [reflexivity|]. cbn [m_st m_rec m_det m_obs m2]. repeat split.
       * exact Rc1.
       * now rewrite D1.
-      * f_equal. rewrite fold_left_xorb. reflexivity.
+      * f_equal. rewrite fold_left_xorb. apply xorb_false_l.
     + exact Hpos.
     + exact Hxc.
     + exists (rev Lrec ++ zeros). exact Hrec1.
@@ -357,7 +361,7 @@ Proof.
     assert (Href : forall k, k < 0 -> rec_at (m_rec m1) (k - Z.of_nat d) = rec_at (rev Lrec ++ zeros) k).
     { intros k Hk. rewrite Hrec1. rewrite <- Hxc, <- (rev_length xc). apply rec_at_app_r. exact Hk. }
     unfold fdet. destruct Hc as [Hc | [[Hc HL] | [Hc HL]]].
-    + subst c. eexists _, _. split; [reflexivity|].
+    + rewrite Hc. eexists _, _. split; [reflexivity|].
       rewrite (parity_at_all _ _ [nth pl xc false; nth pr xc false]).
       * cbn [xor_all fold_right]. now rewrite xorb_false_r, Hxor.
       * cbn [map]. now rewrite !Hmain.
@@ -368,7 +372,7 @@ Proof.
         replace (- (nanc D - Z.of_nat i + Z.of_nat d)) with (- (nanc D - Z.of_nat i) - Z.of_nat d) by lia.
         rewrite Href by (rewrite nanc_d; lia). rewrite HL, nanc_d, <- (an_len 1).
         rewrite rec_at_block by (rewrite an_len; exact Hi). reflexivity.
-    + destruct c as [|[|c']] eqn:Ec; [lia | lia |]. rewrite <- Ec in *.
+    + rewrite !(match_ge2 c) by exact Hc.
       eexists _, _. split; [reflexivity|].
       rewrite (parity_at_all _ _ [nth pl xc false; nth pr xc false; nth i (an c) false; nth i (an (c - 1)) false]).
       * cbn [xor_all fold_right]. rewrite xorb_false_r, <- Hxor.
@@ -379,8 +383,51 @@ Proof.
         rewrite !Href by (rewrite nanc_d; lia).
         rewrite HL, !rev_app_distr, <- !app_assoc.
         rewrite nanc_d, <- (an_len c) at 1. rewrite rec_at_block by (rewrite an_len; exact Hi).
-        replace (Z.of_nat (d - 1)) with (Z.of_nat (length (rev (an c)))) at 2 by (rewrite rev_length, an_len; reflexivity).
-        rewrite rec_at_app_r by lia.
-        rewrite <- (an_len (c - 1)). rewrite rec_at_block by (rewrite an_len; exact Hi). reflexivity.
+        replace (- (nanc D - Z.of_nat i) - nanc D)
+          with (- (Z.of_nat (length (an (c - 1))) - Z.of_nat i) - Z.of_nat (length (rev (an c))))
+          by (rewrite rev_length, !an_len, nanc_d; lia).
+        rewrite rec_at_app_r by (rewrite an_len; lia).
+        rewrite rec_at_block by (rewrite an_len; exact Hi). reflexivity.
+Qed.
+
+(* ------------------------------------------------------------------ the whole program, in terms of the forward run *)
+Definition anc_rec : list bool := if (c =? 0)%nat then a0 else outs_upto c.
+
+Lemma exec_fwd :
+  exec (rep_stim D x ancp c)
+  = Some (zeros ++ anc_rec ++ xs c, dets_upto c ++ map (fdet (xs c)) (seq 0 (d - 1)), [fold_right xorb false (xs c)]).
+Proof.
+  assert (Hfin : exists m, run (init_part D x ancp ++ qec_part D c) start = Ok m
+                           /\ m_st m =s ast (bits (xs c) (an c)) none
+                           /\ m_rec m = rev anc_rec ++ zeros /\ m_det m = rev (dets_upto c) /\ m_obs m = []
+                           /\ (c = O \/ (c = 1%nat /\ anc_rec = an 1)
+                               \/ ((2 <= c)%nat /\ anc_rec = outs_upto (c - 2) ++ an (c - 1) ++ an c))).
+  { unfold anc_rec. destruct (c =? 0)%nat eqn:Ec.
+    - apply Nat.eqb_eq in Ec. destruct init_ok as (m0 & R0 & S0 & Rc0 & D0 & O0).
+      assert (Hq : qec_part D c = map IM (r_anc D)) by (rewrite Ec; reflexivity).
+      rewrite Hq.
+      destruct (runs_measure (r_anc D) m0 (bits (xs 0) (an 0)) none) as (m1 & R1 & S1 & Rc1 & D1 & O1);
+        [reflexivity | exact S0 |].
+      assert (Hmap : map (bits (xs 0) (an 0)) (r_anc D) = a0).
+      { rewrite (sh_anc D d Hsh), <- (an_len 0). apply bits_anc. }
+      exists m1. rewrite run_app, R0. cbn [rbind]. split; [exact R1|].
+      rewrite Ec. split; [exact S1|]. split; [|split; [|split]].
+      + rewrite Rc1, Hmap, Rc0. reflexivity.
+      + rewrite D1, D0. reflexivity.
+      + now rewrite O1.
+      + now left.
+    - apply Nat.eqb_neq in Ec. destruct (rounds_ok c (le_n c)) as (m & R & S0 & Rc0 & D0 & O0).
+      exists m. rewrite qec_part_flat by lia. split; [exact R|]. split; [exact S0|]. split; [exact Rc0|].
+      split; [exact D0|]. split; [exact O0|]. right.
+      destruct (Nat.eq_dec c 1) as [E1|E1].
+      + left. split; [exact E1|]. rewrite E1. unfold outs_upto. cbn [seq map concat]. now rewrite app_nil_r.
+      + right. split; [lia|]. apply outs_upto_back. lia. }
+  destruct Hfin as (m & R & S0 & Rc0 & D0 & O0 & Hc).
+  destruct (final_run m (xs c) (an c) anc_rec (xs_len c) S0 Rc0 O0 Hc) as (m' & R' & Rc' & D' & O').
+  unfold exec, rep_stim. rewrite app_assoc, run_app, R. cbn [rbind]. rewrite R'.
+  rewrite Rc', Rc0, D', D0, O'. apply f_equal. apply f_equal2; [apply f_equal2|].
+  - rewrite !rev_app_distr, !rev_involutive. unfold zeros. rewrite rev_repeat, <- app_assoc. reflexivity.
+  - rewrite rev_app_distr, !rev_involutive. reflexivity.
+  - reflexivity.
 Qed.
 End Main.
